@@ -4,6 +4,7 @@ package main
 
 import (
 	"io"
+	"net"
 	"net/http"
 	"net/http/httptest"
 	"strings"
@@ -22,6 +23,7 @@ type codeAuth struct {
 	mu      sync.Mutex
 	answers map[string]c.Answer // by code
 	def     c.Answer            // any other code
+	profile c.Answer            // the answer to /profile (group membership) in this round; Status 0 = drop the connection
 	calls   []redeemCall
 
 	hold    bool          // hold the first /redeem of this round
@@ -43,6 +45,26 @@ func newCodeAuth() *codeAuth {
 
 func (a *codeAuth) serve(w http.ResponseWriter, r *http.Request) {
 	parts := strings.Split(strings.Trim(r.URL.Path, "/"), "/")
+	if parts[len(parts)-1] == "profile" {
+		a.mu.Lock()
+		ans := a.profile
+		a.mu.Unlock()
+		if ans.Status == 0 { // the group question is cut off: connection reset
+			if hj, ok := w.(http.Hijacker); ok {
+				if conn, _, err := hj.Hijack(); err == nil {
+					if tc, ok := conn.(*net.TCPConn); ok {
+						tc.SetLinger(0)
+					}
+					conn.Close()
+					return
+				}
+			}
+			ans = c.Answer{Status: 502}
+		}
+		w.WriteHeader(ans.Status)
+		io.WriteString(w, ans.Body)
+		return
+	}
 	if parts[len(parts)-1] != "redeem" {
 		w.WriteHeader(http.StatusOK)
 		io.WriteString(w, "{}")
@@ -80,7 +102,13 @@ func (a *codeAuth) serve(w http.ResponseWriter, r *http.Request) {
 
 // script starts a new round: answers by code, nothing held.
 func (a *codeAuth) script(answers map[string]c.Answer) {
+	a.scriptProfile(answers, c.Answer{Status: 200, Body: `{"groups":[]}`})
+}
+
+// scriptProfile is script with a chosen answer to the group question.
+func (a *codeAuth) scriptProfile(answers map[string]c.Answer, profile c.Answer) {
 	a.mu.Lock()
+	a.profile = profile
 	a.answers = answers
 	a.calls = nil
 	a.hold, a.held = false, false
@@ -91,6 +119,7 @@ func (a *codeAuth) script(answers map[string]c.Answer) {
 // scriptHeld starts a round in which the first /redeem is held until releaseHeld.
 func (a *codeAuth) scriptHeld(answers map[string]c.Answer, n int) {
 	a.mu.Lock()
+	a.profile = c.Answer{Status: 200, Body: `{"groups":[]}`}
 	a.answers = answers
 	a.calls = nil
 	a.hold, a.held = true, false
